@@ -2,7 +2,7 @@
 import copy
 
 from harness import grammar, render, tlc
-from harness.common import CANARY_BASE, Report, import_hpl, rng, split_canaries, tier
+from harness.common import CANARY_BASE, keep, Report, import_hpl, rng, split_canaries, tier
 from harness.drive import call_parser, exc_name
 from harness.project import project
 
@@ -97,6 +97,8 @@ def run(replay=None):
     for s in sents:
         toks, _ = render.substitute(s, lits=grammar.STD_LITS)
         text = ' '.join(toks)
+        if not keep(text):
+            continue
         o, p = call_parser('property', text)
         if o != 'ast':
             rep.skip('parser:' + o)
